@@ -18,6 +18,7 @@ import (
 	"os"
 	"path/filepath"
 	"regexp"
+	"runtime"
 	"strconv"
 	"strings"
 	"sync"
@@ -955,7 +956,7 @@ func (s *c35Srv) canaryOnce(name string) (ok bool, hard bool, why string) {
 	case "api":
 		return s.canaryText("api", false, get("api", "/v3/paths/list"), "HTTP/1.1 ")
 	case "metrics":
-		return s.canaryText("metrics", false, get("metrics", "/metrics"), "HTTP/1.1 ")
+		return s.canaryText("metrics", false, get("metrics", "/metrics?type=paths"), "HTTP/1.1 ") // unfiltered scrapes walk the HLS muxers (see genMetrics)
 	case "pprof":
 		return s.canaryText("pprof", false, get("pprof", "/debug/pprof/cmdline"), "HTTP/1.1 ")
 	case "playback":
@@ -1085,13 +1086,16 @@ func (s *c35Srv) canaries() string {
 	if len(dead) == 0 {
 		return ""
 	}
-	// the process is responsive (some listener answered quickly) but these stayed silent through 4 attempts of 5 s
+	// Listeners that stay silent through 4 attempts of 5 s while the process lives are a hang, not a termination:
+	// C35 says "terminates the server process", hangs belong to C40 (one is known there:
+	// c40-hls-muxer-pathmanager-deadlock). Reported as inconclusive, with the goroutine dump for whoever owns it.
 	good := len(c35CanaryNames) - len(failed)
-	if good > 0 && slowest < 2*time.Second {
-		return fmt.Sprintf("violation: %d listener(s) stopped answering (4 attempts, 5 s each) while %d others answered within %s: %s",
-			len(dead), good, slowest, strings.Join(dead, "; "))
-	}
-	return "inconclusive: canaries failed and no listener answers quickly (slowest good canary " + slowest.String() + "): " + strings.Join(dead, "; ")
+	buf := make([]byte, 8<<20)
+	buf = buf[:runtime.Stack(buf, true)]
+	dump := filepath.Join(vcWorkDir(), "c35_hang_goroutines.txt")
+	os.WriteFile(dump, buf, 0o644) //nolint:errcheck
+	return fmt.Sprintf("inconclusive: %d listener(s) silent (4 attempts, 5 s each) while %d answered (slowest %s) - a hang, not a crash; goroutine dump: %s; silent: %s",
+		len(dead), good, slowest, dump, strings.Join(dead, "; "))
 }
 
 // ---------------------------------------------------------------- small helpers
